@@ -210,11 +210,17 @@ class RemoteProxy(BaseProxy):
         raise ConnectionResetError("The simulator has closed its connection.")
 
     async def stop(self) -> None:
+        # The connection may already be broken (e.g. the simulator's
+        # process died); this must not keep the remaining simulators
+        # from being stopped.
         try:
             await asyncio.wait_for(self._channel.send(["stop", [], {}]), 0.1)
-        except (asyncio.TimeoutError, asyncio.IncompleteReadError):
+        except (asyncio.TimeoutError, asyncio.IncompleteReadError, ConnectionError):
             pass
-        await self._channel.close()
+        try:
+            await self._channel.close()
+        except ConnectionError:
+            pass
         await self._reader_task
 
 
